@@ -249,14 +249,15 @@ package authenticode
 //@ func (*peChecksum).Write
 //@   property C05 C09 C11
 //@   nopanic
-//@   requires h.cksumPos >= -2 && h.cksumPos <= 4611686018427387904 && len(d) <= 4611686018427387904
+//@   requires h.cksumPos >= -2 && h.cksumPos <= 4611686018427387904 && len(d) <= 4611686018427387904 && h.sum <= 65535
+//@   ensures @accumulator_folded_to_16_bits_after_every_word h.sum <= 65535
 //@   ensures @field_position_carried_to_the_next_write ret1 == nil ==> \
 //@        (old(h.cksumPos) == -1 ==> h.cksumPos == -1) && \
 //@        (old(h.cksumPos) != -1 && old(h.cksumPos) + 4 <= old(len(d)) ==> h.cksumPos == -1) && \
 //@        (old(h.cksumPos) != -1 && old(h.cksumPos) + 4 > old(len(d)) ==> h.cksumPos == old(h.cksumPos) - old(len(d)))
 //@   ensures @every_byte_counted ret1 == nil ==> ret0 == old(len(d)) && h.size == (old(h.size) + old(len(d))) % 4294967296
 //@   ensures @odd_length_only_at_the_end old(h.odd) ==> ret1 != nil
-//@   loop 0 sig "for i := 0; i < n; i += 2" invariant 0 <= i && i % 2 == 0 && 0 <= n && n <= len(d) && (n % 2 == 1 ==> len(d) == n + 1) && n == old(len(d))
+//@   loop 0 sig "for i := 0; i < n; i += 2" invariant 0 <= i && i % 2 == 0 && 0 <= n && n <= len(d) && (n % 2 == 1 ==> len(d) == n + 1) && n == old(len(d)) && sum <= 65535
 //@   allocbound 0 len(d) + 1
 //@   modifies h.cksumPos, h.sum, h.size, h.odd
 //@
